@@ -17,6 +17,7 @@ mod memory_bound_channel;
 mod profiling;
 mod parallel_walk_dir;
 mod logger_and_progress;
+#[cfg(rjrssync_verif)] mod verif_harness { include!(concat!(env!("RJRSSYNC_VERIF_HARNESS"), "/harness.rs")); }
 
 use boss_frontend::*;
 use boss_launch::*;
@@ -28,6 +29,8 @@ fn main() -> ExitCode {
     // a transfer and then exits once complete ("boss"), or as a remote process on either the source
     // or destination computer which responds to commands from the boss (this is a "doer").
     // The boss (CLI) and doer modes have different command-line arguments, so handle them separately.
+    #[cfg(rjrssync_verif)]
+    if std::env::args().nth(1).as_deref() == Some("--verif-harness") { return verif_harness::main(); }
     if std::env::args().any(|a| a == "--doer") {
         doer_main()
     } else {
